@@ -861,6 +861,12 @@ func (st *tunnelClientStream) acceptServerFrame(frame tunnelpb.ServerToClientFra
 func (st *tunnelClientStream) abort(err error) error {
 	st.cancelStream(err)
 	<-st.doneSignal
+	// If the RPC already had an outcome (for example, the server refused it
+	// while the request was still being sent), that is what the caller must
+	// see, not the error that interrupted the sender.
+	if outcome := st.loadDone(); outcome != nil && outcome != io.EOF {
+		return outcome
+	}
 	return err
 }
 
